@@ -164,6 +164,15 @@ func genCall(r *rand.Rand, fam string, rules []Rule, target string) Call {
 				c.M = len(c.Names) - 1
 			}
 		}
+	case m == "ExecuteDAGModel" && nr >= 9 && r.Intn(3) == 0:
+		// one wide layer (more rules than any fixed worker count, not a round number) and a layer behind it
+		w := 9 + r.Intn(nr-8)
+		perm := r.Perm(nr)
+		layer := []string{}
+		for i := 0; i < w; i++ {
+			layer = append(layer, rules[perm[i]].Name)
+		}
+		c.Dag = append(c.Dag, layer, []string{rules[perm[0]].Name})
 	case m == "ExecuteDAGModel":
 		nl := r.Intn(5)
 		for i := 0; i < nl; i++ {
